@@ -1,12 +1,21 @@
 #!/usr/bin/env python3
-"""mkmut.py <name> <file-relative-to-/repo> <old> <new>: writes /verif/mutants/<name>.diff (repo left unchanged)."""
-import sys,subprocess
-name,f,old,new=sys.argv[1:5]
-p='/repo/'+f
-s=open(p).read()
-assert s.count(old)==1,(name,'occurrences',s.count(old))
-open(p,'w').write(s.replace(old,new))
-d=subprocess.run(['git','-C','/repo','diff'],capture_output=True,text=True).stdout
-open('/verif/mutants/%s.diff'%name,'w').write(d)
-subprocess.run(['git','-C','/repo','checkout','--','.'])
-print("wrote",name)
+"""mkmut.py <name> (<file-relative-to-/repo> <old> <new>)+ : writes /verif/mutants/<name>.diff, repo left unchanged; checks it compiles."""
+import sys,subprocess,os
+name=sys.argv[1]; a=sys.argv[2:]
+try:
+    for i in range(0,len(a),3):
+        f,old,new=a[i:i+3]
+        p='/repo/'+f
+        s=open(p).read()
+        assert s.count(old)==1,(name,f,'occurrences',s.count(old))
+        open(p,'w').write(s.replace(old,new))
+    env=dict(os.environ,GOFLAGS='-mod=mod',GOPROXY='off',GOSUMDB='off')
+    r=subprocess.run(['go','build','./pkg/...','./cmd/...'],cwd='/repo',env=env,capture_output=True,text=True)
+    if r.returncode!=0:
+        print("DOES NOT COMPILE",r.stderr[:500])
+    else:
+        d=subprocess.run(['git','-C','/repo','diff'],capture_output=True,text=True).stdout
+        open('/verif/mutants/%s.diff'%name,'w').write(d)
+        print("wrote",name)
+finally:
+    subprocess.run(['git','-C','/repo','checkout','--','.'])
